@@ -98,11 +98,12 @@ func registerMoreModels(u *Unit) {
 			n := c.Args[2].(VInt).T
 			return splitModel(fx, st, c, &n)
 		})
-	u.reg("crypto/rand.Read", "fills b with the next len(b) bytes of the operating system's random stream rng (ghost position rngpos advances by len(b)) and returns (len(b), nil), or returns an error", []int{0},
+	u.reg("crypto/rand.Read", "fills b with the next len(b) bytes of the operating system's random stream rng (ghost position rngpos advances by len(b)) and returns (len(b), nil); it never returns an error (documented since Go 1.24, the toolchain go.mod pins: on an OS failure the process aborts)", []int{0},
 		func(fx *FX, st *State, c *CallCtx) Val {
 			b := c.Args[0].(VSlice)
 			fx.writeCheck(st, b.Ref, rootOf(c.C.Args[0]), c.Pos, "rand.Read")
 			ok := fx.fresh("randok", SBool)
+			fx.assume(tTrue, ok)
 			pos := fx.rngPos
 			arr := fx.fresh("randbytes", SIArr)
 			fx.assume(tTrue, implies(ok, eq(app(SSeq, "view", arr, b.Off, b.Len), app(SSeq, "sub", T{"rng", SSeq}, pos, add(pos, b.Len)))))
@@ -289,6 +290,9 @@ func registerMoreModels(u *Unit) {
 			ts := flatten(r)
 			us := app(SInt, "unixsec", ts[0], ts[1])
 			fx.assume(tTrue, and(le(num(0), us), lt(us, T{"4611686018427387904", SInt})))
+			// ghosts nowunix / nowcalls
+			st.Now = fx.def("nowunix", us)
+			st.NowN = fx.def("nowcalls", add(st.NowN, num(1)))
 			return r
 		})
 }
